@@ -6,5 +6,5 @@ export GOFLAGS=-mod=mod GOPROXY=off GOSUMDB=off GOTOOLCHAIN=local
 mkdir -p build coq/generated evidence
 (cd coq && coq_makefile -f _CoqProject -o Makefile >/dev/null && timeout 3000 make -j16)
 cp /repo/go.sum harness/go.sum
-(cd harness && go build -tags verif -o ../build/bmh .)
+(cd harness && go build -tags verif -o ../build/bmh . && go build -tags verif -race -o ../build/bmh-race .)
 echo setup-ok
